@@ -1,0 +1,15 @@
+//go:build !verif
+// +build !verif
+
+package simdjson
+
+// Verification hooks are compiled out unless the "verif" build tag is set
+// (see verif_on.go).  These stubs are empty and inlined away.
+
+func verifEv(pj *internalParsedJson, ev string, a, b, c int) {}
+
+func verifIdx(pj *internalParsedJson, ev string, idx *indexChan, n int) {}
+
+func verifStream(key interface{}, ev string, a, b int) {}
+
+func verifPool(ev, pool string, obj interface{}) {}
